@@ -153,7 +153,13 @@ let langc03_mode inp outp =
              Printf.fprintf oc "verdict2 %d %d | %s | S %s F %s | A %s\n"
                (if m.v_checked then 1 else 0) (if w.w_checked_aug then 1 else 0)
                (String.concat " " (List.map (fun (i, k) -> Printf.sprintf "%d:%s" (int_of_z i) (cls k)) m.v_stmt))
-               (zs rs2) (zs rf2) (zs w.w_aug)
+               (zs rs2) (zs rf2) (zs w.w_aug);
+             (* round 2: the residual entries the verified liveness checker accepts as dead stores *)
+             let x = plan_ok3 p ss fs in
+             let (rs3, rf3) = x.x_residual in
+             Printf.fprintf oc "verdict3 %d %d | A %s | S %s F %s\n"
+               (if x.x_main.v_checked then 1 else 0) (if x.x_checked then 1 else 0)
+               (zs x.x_acc) (zs rs3) (zs rf3)
          | Some _, _ -> Printf.fprintf oc "verdict none\n"
          | None, _ -> ())
     | "end" :: id :: _ -> Printf.fprintf oc "end %s\n" id
